@@ -257,6 +257,39 @@ def directed_value_purity(ctx):
                               first=repr(outs[0])[:300], second=repr(outs[1])[:300])
 
 
+def directed_lookup_purity(ctx):
+    """validate / == / validate_or_fail / substitute on dict subclasses whose item lookup has side effects
+    (collections.defaultdict inserts on a miss; a counting dict records every access): the value is the same afterwards"""
+    import collections
+    from d42 import validate_or_fail
+
+    class Counting(dict):
+        def __missing__(self, key):
+            self[key] = "made-up"
+            return self[key]
+    schemas = [schema.dict({"name": schema.str, "tags": schema.list(schema.str)}), schema.dict({"name": schema.str, optional("tags"): schema.list}),
+               schema.dict({"a": schema.dict({"b": schema.int, optional("c"): schema.int}), ...: ...}),
+               schema.list(schema.dict({"id": schema.int, "x": schema.none})), schema.any(schema.dict({"k": schema.int}), schema.none),
+               schema.dict]
+    makers = [lambda: collections.defaultdict(list, {"name": "bob"}), lambda: collections.defaultdict(dict, {"a": collections.defaultdict(int)}),
+              lambda: Counting(name="bob"), lambda: collections.OrderedDict(name="bob"), lambda: [collections.defaultdict(lambda: None, {"id": 1})],
+              lambda: collections.defaultdict(int), lambda: Counting()]
+    ops = [("validate", lambda s, v: validate(s, v)), ("==", lambda s, v: s == v), ("validate_or_fail", lambda s, v: validate_or_fail(s, v)),
+           ("%", lambda s, v: substitute(s, v)), ("from_native", lambda s, v: from_native(v))]
+    for s in schemas:
+        for mk in makers:
+            for name, op in ops:
+                v = mk()
+                before = deep_snapshot(v)
+                try:
+                    op(s, v)
+                except Exception:  # noqa: BLE001
+                    pass
+                ctx.count("directed_lookup_purity_cases")
+                if deep_snapshot(v) != before:
+                    ctx.violation("an operation mutated the value passed in", op=name, schema=repr(s), before=before, after=deep_snapshot(v))
+
+
 def order_independence(ctx):
     """results do not depend on what was executed before: the same value-only operations are evaluated here in one order and
     in a fresh interpreter in the reverse order (a cache or any other state shared between calls shows up as a difference)"""
@@ -406,6 +439,7 @@ def run(ctx):
     runner.prove(ctx, MODULE, THEOREMS, FILES)
     directed_aliasing(ctx)
     directed_value_purity(ctx)
+    directed_lookup_purity(ctx)
     order_independence(ctx)
     steps = ctx.n(30, 100)
     for h in range(ctx.n(25, 80)):
